@@ -1,6 +1,7 @@
 #include "sysrand.h"
 #include <errno.h>
 #include <string.h>
+#include <stdlib.h>
 #include <sys/types.h>
 unsigned sysrand_calls, sysrand_deliveries;
 uint64_t sysrand_fail_mask, sysrand_eintr_mask, sysrand_tape_seed = 1;
@@ -27,6 +28,9 @@ void sysrand_expected(unsigned d, uint8_t *out, size_t n)
 ssize_t getrandom(void *buf, size_t n, unsigned flags)
 {
     (void)flags;
+    static int down = -1;   /* VP_SYSRAND_DOWN=<errno>: the system source is not there at all -- every request fails with that error (ENOSYS 38, EIO 5, EPERM 1) */
+    if (down < 0) { const char *e = getenv("VP_SYSRAND_DOWN"); down = e ? atoi(e) : 0; }
+    if (down) { sysrand_calls++; errno = down; return -1; }
     unsigned k = sysrand_calls;
     if (k < 64 && ((sysrand_eintr_mask >> k) & 1) && !((eintr_done >> k) & 1)) {
         eintr_done |= (uint64_t)1 << k; errno = sysrand_eintr_errno; return -1; /* same logical call is retried */
